@@ -4,6 +4,7 @@ from collections import OrderedDict
 import copy
 
 from ..custom import _custom_marking_builder
+from ..exceptions import CustomContentError
 from ..markings import _MarkingsMixin
 from ..markings.utils import check_tlp_marking
 from ..properties import (
@@ -106,7 +107,10 @@ class MarkingProperty(Property):
 
     def clean(self, value, allow_custom=False):
         if type(value) in OBJ_MAP_MARKING.values():
-            return value, False
+            has_custom = value.has_custom
+            if not allow_custom and has_custom:
+                raise CustomContentError("custom content encountered")
+            return value, has_custom
         else:
             raise ValueError("must be a Statement, TLP Marking or a registered marking.")
 
